@@ -73,9 +73,12 @@ def run(ctx):
     vhr = vlib.build_harness(ctx, race=True)
     racelog = os.path.join(td, 'race')
     nst = 45 if quick else 1500
-    for i, (stacks, n) in enumerate([('mem', nst), ('http(mem)', nst // 3)]):
+    runs = [('stress', 'mem', nst), ('stress', 'http(mem)', nst // 3),
+            # readers of every kind against writers of every kind, unrecorded: only the race detector watches
+            ('racesweep', 'mem;http(mem)', 25 if quick else 400)]
+    for i, (mode, stacks, n) in enumerate(runs):
         t = os.path.join(td, 'stress%d.ndjson' % i)
-        p = run_conc(ctx, vhr, ['-mode', 'stress', '-n', str(n), '-g', '5', '-ops', '8', '-seed', str(ctx.seed * 100 + i),
+        p = run_conc(ctx, vhr, ['-mode', mode, '-n', str(n), '-g', '5', '-ops', '8', '-seed', str(ctx.seed * 100 + i),
                                 '-stacks', stacks, '-out', t], racelog=racelog)
         if p.returncode == 66:
             os.makedirs(os.path.join(vlib.VERIF, 'replays'), exist_ok=True)
@@ -84,12 +87,13 @@ def run(ctx):
                 for fn in sorted(os.listdir(td)):
                     if fn.startswith('race'):
                         f.write(open(os.path.join(td, fn)).read())
-                f.write('\ncommand: vh-race conc -mode stress -n %d -g 5 -ops 8 -seed %d -stacks %s\n' % (n, ctx.seed * 100 + i, stacks))
+                f.write('\ncommand: vh-race conc -mode %s -n %d -g 5 -ops 8 -seed %d -stacks %s\n' % (mode, n, ctx.seed * 100 + i, stacks))
             ctx.violations.append(dict(replay=rp, event='DATA RACE reported by the Go race detector (report in the replay file)', module='race', sig='race'))
             continue
         if p.returncode != 0:
             raise vlib.Machinery('stress run failed (exit %d): %s' % (p.returncode, p.stderr[-2000:]))
-        traces.append(t)
+        if mode == 'stress':
+            traces.append(t)
     ctx.cov['samples'] = [dict(tlc_schedule=scheds[0]['sched']), dict(recorded_events=rc.sample_events(traces[-1], 6, skip_snap=False))]
     ctx.cov['schedules_replayed'] = len(scheds)
     # 4. TLC searches a linearization of every recorded history
